@@ -202,6 +202,21 @@ def run(ctx):
                            ([key(nk(l.value)) for l in direct], la), None)
             else:
                 ob4.unknown("command address %s is not of a form this rule reads" % [key(nk(l.value))[:80] for l in alld])
+        # consecutive beats of a burst address consecutive words: the burst states advance the WHOLE latched address (an increment confined to the low bits wraps a
+        # burst that crosses a block boundary back to the start of the block)
+        areg = [l for l in lat if key(nk(l.value)) == want]
+        if areg:
+            ak = key(areg[0].target)
+            steps = [l for l in v.fsm_leaves(f) if l.kind == "nextvalue" and isinstance(l.value, V) and ak in support(l.value) and "burst_increment" in support(l.value)]
+            ob4.instance("burst address steps", [str(l)[:100] for l in steps])
+            for l in steps:
+                if key(l.target) != ak:
+                    ob4.refute("burst-step-partial", "`%s` advances only part of the latched command address %s: a burst that crosses that field's range wraps inside it instead "
+                               "of going on to the next words" % (str(l)[:100], ak), l.loc)
+                elif not lin_eq(l.value, Op("+", (l.target, Sym("burst_increment")))):
+                    ob4.refute("burst-step", "`%s`: the burst address is not advanced by burst_increment" % str(l)[:100], l.loc)
+            if not steps:
+                ob4.unknown("no burst-state statement advances the latched command address %s" % ak)
     ctx.assume("stall interleavings and data values are not decided; the width-adjusting converter in front of the bridge is covered by C07")
 
 
